@@ -121,6 +121,12 @@ func ruleNoLossyNumerics(c *core.Ctx) {
 							return
 						}
 					}
+					// an unexported helper all of whose callers are allowed for this kind of use
+					// (a piece of one of them moved into a function) inherits their allowance
+					if why := numAllowedByCallers(c, load.FuncObj(pk, fd), what, 0); why != "" {
+						c.Pass(rule, key, pos(c, at), "allowed (helper of): "+why)
+						return
+					}
 					c.Fail(rule, key, pos(c, at), detail)
 				}
 				ast.Inspect(fd.Body, func(x ast.Node) bool {
@@ -184,20 +190,24 @@ func ruleDecodeAnyUsesNumber(c *core.Ctx) {
 	c.Check(use, "NUM/decode-any", declKey(d)+":UseNumber", pos(c, d.Decl), "decoder.UseNumber()", "ScriptV1.UnmarshalJSON decodes without UseNumber: numeric amounts become float64 and lose digits above 2^53")
 	// and ToCore has a json.Number arm that formats the literal digits
 	if t := fn(c, pkgVM, "ScriptV1", "ToCore"); t != nil {
+		// somewhere in ToCore (or a helper it calls) the digits of a json.Number are parsed exactly:
+		// SetString(<json.Number>.String(), 10) — whether the arm is a type-switch case or an if
 		arm := false
-		ast.Inspect(t.Decl.Body, func(n ast.Node) bool {
-			cc, ok := n.(*ast.CaseClause)
-			if !ok {
-				return true
-			}
-			for _, e := range cc.List {
-				if tv, ok := t.Pkg.TypesInfo.Types[e]; ok && tv.IsType() && astx.IsNamed(tv.Type, "encoding/json", "Number") {
-					if len(callsTo(t.Pkg.TypesInfo, cc, named("SetString"))) == 1 {
-						arm = true
-					}
+		inScope(fnScope(c, t, 1), func(sd *astx.DeclInfo) {
+			si := sd.Pkg.TypesInfo
+			for _, call := range callsTo(si, sd.Decl.Body, named("SetString")) {
+				if len(call.Args) < 1 {
+					continue
 				}
+				ast.Inspect(call.Args[0], func(n ast.Node) bool {
+					if e, ok := n.(ast.Expr); ok {
+						if tt := si.TypeOf(e); tt != nil && astx.IsNamed(tt, "encoding/json", "Number") {
+							arm = true
+						}
+					}
+					return true
+				})
 			}
-			return true
 		})
 		c.Check(arm, "NUM/decode-any", declKey(t)+":json.Number-arm", pos(c, t.Decl), "json.Number → exact digits", "ScriptV1.ToCore has no arm turning a json.Number amount into its exact digits")
 	}
@@ -210,6 +220,41 @@ var decodeAnyAllow = map[string]string{
 	"internal.(SavedMetadata).UnmarshalJSON":   "targetId of an account target is an address string; transaction ids are parsed with ParseUint",
 	"internal.(DeletedMetadata).UnmarshalJSON": "targetId of an account target is an address string; transaction ids are parsed with ParseUint",
 	"internal.checkForExtraFields":             "only the key set of the decoded object is inspected",
+}
+
+func numAllowedByCallers(c *core.Ctx, f *types.Func, what string, depth int) string {
+	if f == nil || f.Exported() || depth > 2 {
+		return ""
+	}
+	why := ""
+	n := 0
+	for _, s := range index(c).SitesOf(f) {
+		if s.Encl == nil || strings.HasSuffix(c.Prog().Rel(s.Call.Pos()), "_test.go") {
+			continue
+		}
+		n++
+		caller := load.FuncObj(s.Pkg, s.Encl)
+		if caller == nil {
+			return ""
+		}
+		found := ""
+		for _, a := range numAllow[astx.FuncKey(caller)] {
+			if a.what == what {
+				found = a.why
+			}
+		}
+		if found == "" {
+			found = numAllowedByCallers(c, caller, what, depth+1)
+		}
+		if found == "" {
+			return ""
+		}
+		why = found
+	}
+	if n == 0 {
+		return ""
+	}
+	return why
 }
 
 // decodeAllowedByCallers: an unexported helper all of whose callers are allowed decode sites (a
